@@ -192,10 +192,6 @@ def _descent_direction(X, y, w_epoch, Xw_epoch, fit_intercept, grad_ws, datafit,
     for cd_iter in range(MAX_CD_ITER):
         ptr = 0
         for idx, g in enumerate(ws):
-            # skip when X[:, grp_g_indices] == 0
-            if lipchitz[idx] == 0.:
-                continue
-
             grp_g_indices = grp_indices[grp_ptr[g]:grp_ptr[g+1]]
             range_grp_g = slice(ptr, ptr + len(grp_g_indices))
 
@@ -205,7 +201,8 @@ def _descent_direction(X, y, w_epoch, Xw_epoch, fit_intercept, grad_ws, datafit,
                 X, raw_hess * X_delta_w_ws, grp_g_indices)
 
             old_w_ws_g = w_ws[range_grp_g].copy()
-            stepsize = 1 / lipchitz[idx]
+            # same fallback step as AndersonCD when X[:, grp_g_indices] == 0
+            stepsize = 1 / lipchitz[idx] if lipchitz[idx] != 0 else 1000
 
             w_ws[range_grp_g] = penalty.prox_1group(
                 old_w_ws_g - stepsize * past_grads[range_grp_g], stepsize, g)
